@@ -155,13 +155,14 @@ def run_suite(args):
     gen.materialize(out, root)
     for dp in deps:
         pb2synth.write_pb2(root, dp.proto)
+    asserts = extract_asserts(root)
     junit = os.path.join(d, "junit.xml")
     e = env.child_env()
     e["PYTHONPATH"] = root
     p = subprocess.run([env.PY, "-m", "pytest", "tests/unit", "-q", "-p", "no:cacheprovider", "-n", "4", "--timeout=600",
                         f"--junitxml={junit}", "-o", "asyncio_default_fixture_loop_scope=function"],
                        cwd=root, env=e, stdout=subprocess.PIPE, stderr=subprocess.STDOUT, text=True, timeout=1800)
-    res = {"case": case, "rc": p.returncode, "tail": p.stdout[-1500:], "failed": [], "total": 0}
+    res = {"case": case, "rc": p.returncode, "tail": p.stdout[-1500:], "failed": [], "total": 0, "asserts": asserts}
     try:
         for tc in ET.parse(junit).getroot().iter("testcase"):
             res["total"] += 1
@@ -172,6 +173,101 @@ def run_suite(args):
         res["junit_error"] = str(ex)
     gen.rm(d)
     return res
+
+
+def extract_asserts(root):
+    """T1: every `assert` of an emitted test function that compares an attribute of `response` with a value, as
+    (client method called in that function, attribute, form); form is one of is / eq / isclose / isclose-each."""
+    import ast
+    out, errors = set(), []
+    for dp, _, files in os.walk(os.path.join(root, "tests", "unit")):
+        for fn in files:
+            if not (fn.startswith("test_") and fn.endswith(".py")):
+                continue
+            try:
+                tree = ast.parse(open(os.path.join(dp, fn), encoding="utf-8").read())
+            except SyntaxError as e:
+                errors.append(f"{fn}: {e}")
+                continue
+            for f in ast.walk(tree):
+                if not isinstance(f, (ast.FunctionDef, ast.AsyncFunctionDef)) or not f.name.startswith("test_"):
+                    continue
+                called = None
+                for n in ast.walk(f):
+                    if (isinstance(n, ast.Call) and isinstance(n.func, ast.Attribute) and isinstance(n.func.value, ast.Name)
+                            and n.func.value.id == "client" and not n.func.attr.startswith("__") and called is None):
+                        called = n.func.attr
+                def resp_attr(e):
+                    return e.attr if isinstance(e, ast.Attribute) and isinstance(e.value, ast.Name) and e.value.id == "response" else None
+                for n in ast.walk(f):
+                    if not isinstance(n, ast.Assert):
+                        continue
+                    t = n.test
+                    if isinstance(t, ast.Compare) and len(t.ops) == 1 and resp_attr(t.left):
+                        form = {"Is": "is", "Eq": "eq"}.get(type(t.ops[0]).__name__)
+                        if form:
+                            out.add((called or "", resp_attr(t.left), form))
+                    elif (isinstance(t, ast.Call) and isinstance(t.func, ast.Attribute) and t.func.attr == "isclose" and t.args):
+                        a0 = t.args[0]
+                        if resp_attr(a0):
+                            out.add((called or "", resp_attr(a0), "isclose"))
+                        elif isinstance(a0, ast.Subscript) and resp_attr(a0.value):
+                            out.add((called or "", resp_attr(a0.value), "isclose-each"))
+    return {"rows": sorted(out), "errors": errors}
+
+
+def check_asserts(ctx, jobs, results):
+    """Compare the extracted assertion forms with Model/Asserts.v assert_form on (type, repeated) of the response field."""
+    FORM = {"is": "AIs", "eq": "AEq", "isclose": "AIsClose", "isclose-each": "AIsCloseEach"}
+    checks, seen, unmapped = [], set(), 0
+    for j, res in zip(jobs, results):
+        a = res.get("asserts")
+        if not a:
+            continue
+        for e in a["errors"]:
+            ctx.oblige("T1 emitted tests parse", False, e)
+        req = j[2]
+        msgs = {}
+        def walk(prefix, m):
+            msgs[prefix + "." + m.name] = m
+            for n in m.nested_type:
+                walk(prefix + "." + m.name, n)
+        methods = {}
+        for fp in req.proto_file:
+            for m in fp.message_type:
+                walk("." + fp.package, m)
+            if fp.name in req.file_to_generate:
+                for sv in fp.service:
+                    for m in sv.method:
+                        methods.setdefault(m.name.lower(), []).append(m)
+        for called, attr, form in a["rows"]:
+            cands = methods.get(called.lstrip("_").replace("_", "").lower(), [])
+            hit = None
+            for m in cands:
+                om = msgs.get(m.output_type)
+                if om is None:
+                    continue
+                for f in om.field:
+                    if f.name in (attr, attr[:-1] if attr.endswith("_") else attr):
+                        hit = (m, om, f)
+            if hit is None:
+                unmapped += 1
+                continue
+            m, om, f = hit
+            key = (f.type, f.label == 3, form)
+            ctx.case({"assert": [m.name, f.name, form]}, nontrivial=True, feature=f"assert-{form}" + ("-repeated" if f.label == 3 else ""))
+            if key in seen:
+                continue
+            seen.add(key)
+            checks.append((f"api #{j[0]} {m.name}: `response.{attr}` (type {f.type}, repeated={f.label == 3}) is compared with form {form}",
+                           f"aform_eqb (assert_form {f.type} {'true' if f.label == 3 else 'false'}) {FORM[form]}"))
+    ctx.notes["asserts_unmapped"] = unmapped
+    if not checks:
+        ctx.oblige("T1 emitted response assertions were extracted", False, "no assertion of a response field was found in any emitted suite")
+        return
+    failing, errors, nf = coq.eval_checks("c13asserts", "From GV Require Import Model.Asserts.", "", checks)
+    ctx.oblige(f"T1 emitted response-field assertions = assert_form on {len(checks)} distinct (type, repeated, form) shapes",
+               not failing and not errors, "; ".join((failing + errors)[:6]))
 
 
 def signature_of(failed, params):
@@ -429,6 +525,7 @@ def run(ctx):
             ctx.violation(f"emitted tests/unit: {len(res['failed'])} of {res['total']} tests failed (pytest exit {res['rc']}): "
                           f"{[f['test'] for f in first]} :: {first[0]['msg'] if first else res['tail'][-300:]}",
                           dict(res["case"], failed=[f["test"] for f in res["failed"][:30]]), signature_of(res["failed"], j[3]["params"]))
+    _stage(ctx, "assertion forms T1", check_asserts, ctx, jobs, results)
     ctx.notes["suites_run"] = len(jobs)
     ctx.notes["tests_total"] = sum(r.get("total", 0) for r in results)
 
